@@ -153,12 +153,18 @@ def make_statement(rng, ccy, opening_cents, nentries, start_date, with_opening=T
             e["charges"] = mk_charges(rng, rng.choice(["none", "none", "zero", "notincluded"] if cents else ["none", "zero"]), ccy)
         else:
             parts = [rng.randint(2000, 200000) for _ in range(batch)]
-            cents = sum(parts)
+            # a batch may hold a detail of the opposite direction (a refund inside a debit batch): the signed details still
+            # sum to the entry, and each detail is booked with its OWN direction
+            opp = rng.randint(100, 1999) if batch >= 2 and rng.random() < 0.3 else 0
+            cents = sum(parts) - opp
             e["amount"] = D.cents(cents)
             if batch == 1:
                 e["charges"] = mk_charges(rng, rng.choice(["none", "none", "zero", "included", "notincluded"]), ccy)
             for p in parts:
                 e["details"].append(make_detail(rng, ccy, cd, p, e["charges"], allow_charges=True))
+            if opp:
+                e["details"].insert(rng.randint(0, len(e["details"])),
+                                    make_detail(rng, ccy, "D" if cd == "C" else "C", opp, e["charges"], allow_charges=False))
         bal += cents if cd == "C" else -cents
         st["entries"].append(e)
     st["closing"] = bal if with_closing else None
